@@ -37,6 +37,35 @@ package blobstore
 //@   ensures dirty-idle-handle-is-queued: old(sh.useCount) == 0 && sh.writtenVersion != sh.currentVersion ==> sh.handlesToWriteIndex >= 0
 //@   ensures versions-untouched: sh.writtenVersion == old(sh.writtenVersion) && sh.currentVersion == old(sh.currentVersion)
 
+// Whoever gets a handle from Get owns exactly one use of it (to be given back
+// by Release); a failed Get owns none. uses(h): uses of handle h this call has
+// taken (increaseUseCount) minus given back (decreaseUseCount); a handle
+// created by the call starts with the caller's one use.
+//@ monitor blobAccessMutableProtoStore.lock
+//@   props C07
+//@   guards handles handlesToWrite
+//@ ghost map uses(ref) int zero
+//@ func (*blobAccessMutableProtoHandle[T, TProto]).increaseUseCount
+//@   props C07
+//@   ghostset uses[sh] = old(uses(sh)) + 1
+//@   assume sh.useCount < MaxInt64 -- a handle does not have 2^63 users
+//@   ensures one-use-more: sh.useCount == old(sh.useCount) + 1
+//@ func (*blobAccessMutableProtoHandle[T, TProto]).decreaseUseCount
+//@   props C07
+//@   requires sh.store != nil && sh.useCount >= 1
+//@   requires handles-in-use-are-not-queued: sh.handlesToWriteIndex < 0
+//@   ghostset uses[sh] = old(uses(sh)) - 1
+//@   ensures one-use-less: sh.useCount == old(sh.useCount) - 1
+//@   ensures versions-untouched: sh.writtenVersion == old(sh.writtenVersion) && sh.currentVersion == old(sh.currentVersion)
+//@ func (*blobAccessMutableProtoStore[T, TProto]).Get
+//@   props C07
+//@   at call increaseUseCount#2 assume !isnew(arg0) -- the handle created by this call is private until this call publishes it: what another thread put into the table is a different object
+//@   trustcall decreaseUseCount -- the handle was taken into use by this very call (increaseUseCount above); other threads only add or give back their own uses, so it is still in use and not queued
+//@   ensures the-caller-owns-one-use-of-the-returned-handle: r1 == nil ==>
+//@             (isnew(handleToReturn) && uses(handleToReturn) == 0 && handleToReturn.useCount == 1) ||
+//@             (!isnew(handleToReturn) && uses(handleToReturn) == 1)
+//@   ensures a-failed-get-owns-nothing: r1 != nil ==> hasExistingHandle ==> uses(handleToReturn) == 0
+
 // ---------------------------------------------------------------------------
 // Storage stalls suspend the clock for exactly their own duration (C11)
 //
